@@ -2,7 +2,7 @@
 (* C14: documents in which fill / stroke / stroke-width are set through    *)
 (* every subset of sources, inheritance chains, use, currentColor and       *)
 (* opacity; rendered by DocCore with the DocPaint cascade.                  *)
-EXTENDS Rat, Sequences, TLC, FiniteSets
+EXTENDS Rat, Sequences, TLC, FiniteSets, Json, IOUtils
 VARIABLES kind, doc, sheet, callerColor, out
 vars == <<kind, doc, sheet, callerColor, out>>
 AF == INSTANCE Affine
@@ -155,6 +155,9 @@ Init ==
                  (IF src = "inline" THEN <<<<"stroke-width", RZero>>>> ELSE <<>>)>>>>, E0, E0>>,
            IF src = "rule" THEN <<<<"id", "r", <<<<"stroke-width", RZero>>>>>>>> ELSE <<>>, "black")
 Next == UNCHANGED vars
+\* generated paint documents (harness/docgen.py): TLC evaluates the cascade; display is cascaded like any property
+GenDocs == JsonDeserialize(IOEnv.DOCS_FILE)
+InitGen == \E i \in 1..Len(GenDocs) : MkD("generated", GenDocs[i].doc, GenDocs[i].sheet, GenDocs[i].callerColor)
 
 \* ---- laws of the specification ---------------------------------------------
 OneShape == kind # "display" => Len(out) = 1
